@@ -255,6 +255,38 @@ def _apply_mask(check: Check):
       cond, a, b = rv.args
       ok = any(isinstance(n, ast.Name) and n.id == p_mask for n in ast.walk(cond)) and ff.param_of(a) == p_a and ff.param_of(b) == p_b
   check.ob('R-MASK.apply', fi, 'where(mask, a, b)', ok, 'a is kept where the mask is True, b elsewhere')
+  # R-MASK.rank: the row mask is lifted to the full rank of the operands - expand_dims(mask, tuple(range(1, R))) with
+  # R = max(rank a, rank b). Any smaller R masks positions / classes instead of rows when the sizes happen to coincide.
+  def rank_of(e):
+    if isinstance(e, ast.Call) and ff.ext(e.func) == 'builtins.len' and len(e.args) == 1 and isinstance(e.args[0], ast.Attribute) and e.args[0].attr == 'shape':
+      return ff.param_of(e.args[0].value)
+    if isinstance(e, ast.Attribute) and e.attr == 'ndim':
+      return ff.param_of(e.value)
+    if isinstance(e, ast.Call) and ff.ext(e.func) in ('jax.numpy.ndim', 'numpy.ndim') and len(e.args) == 1:
+      return ff.param_of(e.args[0])
+    return None
+  verdict, shown, at = None, 'expand_dims(mask, tuple(range(1, rank)))', None
+  for _, c in ff.calls():
+    if ff.ext(c.func) in ('jax.numpy.expand_dims', 'numpy.expand_dims') and len(c.args) + len(c.keywords) == 2:
+      ax = c.args[1] if len(c.args) == 2 else c.keywords[0].value
+      ax = ff.expand1(ax) or ax
+      if isinstance(ax, ast.Call) and ff.ext(ax.func) == 'builtins.tuple' and len(ax.args) == 1:
+        ax = ff.expand1(ax.args[0]) or ax.args[0]
+      if isinstance(ax, ast.Call) and ff.ext(ax.func) == 'builtins.range' and len(ax.args) == 2:
+        lo, hi = ax.args
+        hi = ff.expand1(hi) or hi
+        at = c
+        shown = f'expand_dims(mask, range({txt(lo)}, {txt(hi)}))'
+        lo_ok = isinstance(lo, ast.Constant) and lo.value == 1
+        hi_ok = (isinstance(hi, ast.Call) and ff.ext(hi.func) == 'builtins.max' and not hi.keywords and
+                 {rank_of(x) for x in (hi.args if len(hi.args) == 2 else [])} == {p_a, p_b})
+        verdict = lo_ok and hi_ok
+  check.ob('R-MASK.rank', fi, shown, verdict,
+           'the mask gets one new axis for each trailing axis 1 .. max(rank a, rank b) - 1 of the operands, so it selects rows '
+           'whatever the rank of the statistic' if verdict else
+           'the lifted mask does not cover axes 1 .. max(rank a, rank b) - 1: for per-position / matrix statistics it broadcasts '
+           'against a non-row axis (padding rows leak when the sizes coincide)' if verdict is False else
+           'the expand_dims(mask, range(1, R)) idiom was not found', node=at)
 
 
 def _model_step(check: Check):
